@@ -9,6 +9,7 @@ import (
 	"os"
 	"path/filepath"
 	"reflect"
+	"strings"
 
 	"github.com/smhanov/syzgydb"
 )
@@ -29,6 +30,10 @@ func genJSONValue(rng *rand.Rand, depth int) any {
 		case 3:
 			return rng.Float64() * math.Pow(10, float64(rng.Intn(20)-10))
 		default:
+			if rng.Intn(60) == 0 {
+				// very long strings: one line of the export beyond the usual buffer sizes (4 KiB, 64 KiB, 1 MiB)
+				return strings.Repeat("long text ", []int{500, 7000, 110000}[rng.Intn(3)])
+			}
 			return strs[rng.Intn(len(strs))]
 		}
 	case k < 7:
